@@ -146,6 +146,23 @@ def run(model, col, tier):
             n5 += 1
     if n5 == 0:
         col.ok("R19.5", f"{WA}:: no module-level or class-level mutable state", "the writer module binds no mutable object at import time")
+    # a body / section is serialised more than once (once to measure its size, once to emit it): what an object writes must
+    # not depend on how often it was written.  A field bound to a one-shot iterator is empty the second time.
+    from ..infra import one_shot_fields
+
+    probe = ast.parse("class K:\n    def __init__(self, a):\n        self.a = map(int, a) if a else None\n").body[0]
+    if len(one_shot_fields(probe)) != 1:
+        raise AnalysisError("R19.5: the one-shot-iterator detector does not fire on its positive example")
+    ncls = 0
+    for ci in model.classes.values():
+        if ci.file != WA:
+            continue
+        ncls += 1
+        shots = one_shot_fields(ci.node)
+        col.check(not shots, "R19.5", f"{WA}::{ci.name} writes the same bytes every time", "no field holds a one-shot iterator",
+                  f"{[(f, mk) for f, mk, _ in shots]}: the field is an iterator that is exhausted by the first WriteTo; a second serialisation of the same object (size measurement, then emission) "
+                  "writes nothing for it, so the size field and the payload disagree", WA, shots[0][2] if shots else ci.node)
+    col.floor("R19.5", "writer classes", ncls, 8)
 
 
 def check_encoder_shape(model, col, R):
@@ -163,6 +180,19 @@ def check_encoder_shape(model, col, R):
                 for x in ast.walk(s_):
                     signed_region.add(id(x))
     vname0 = pi.args.args[0].arg
+    # the value being encoded changes only by dropping the 7 bits just written: any other re-binding (a wrap, a clamp, a mask)
+    # encodes a different number than the caller passed
+    rebinds = []
+    for n in ast.walk(pi):
+        if isinstance(n, ast.AugAssign) and isinstance(n.target, ast.Name) and n.target.id == vname0:
+            if not (isinstance(n.op, ast.RShift) and isinstance(n.value, ast.Constant) and n.value.value == 7):
+                rebinds.append(n)
+        elif isinstance(n, (ast.Assign, ast.AnnAssign)) and any(isinstance(t, ast.Name) and t.id == vname0 for t in (n.targets if isinstance(n, ast.Assign) else [n.target])):
+            if " ".join(unparse(n.value).split()) not in (f"{vname0} >> 7", f"{vname0} // 128"):
+                rebinds.append(n)
+    col.check(not rebinds, R, f"{WA}::PackInteger encodes the value it was given", f"`{vname0}` is only ever shifted right by 7",
+              f"`{' '.join(unparse(rebinds[0]).split()) if rebinds else ''}` changes the number before / while it is encoded: counts, sizes and indices in that range decode to another value "
+              "(e.g. an unsigned 0x80000000 written as a negative number)", WA, rebinds[0] if rebinds else pi)
     for lp in loops:
         kind = "signed" if id(lp) in signed_region else "unsigned"
         body = unparse(ast.Module(body=lp.body, type_ignores=[]))
